@@ -475,6 +475,10 @@ func runC09(c *Ctx) {
 
 	r7 := c.Rule("R7", "outside the loader no type is looked up under a fixed name (roots come from the loader's pointers)", 1)
 	noRootByName(c, r7)
+
+	// ---- R8 the lookups that produce the Definition links cannot miss for a name the loader resolved (shared with C07.R11)
+	r8 := c.Rule("R8", "the loader only adds to the schema's registries", 1)
+	registriesGrowOnly(c, r8)
 }
 
 // c09OnlyWalkerWrites: outside the walker (and the parser, which builds the nodes, and the JSON decoder, which builds
